@@ -87,8 +87,12 @@ macro "kernel_norm" : tactic => `(tactic|
     `kernel_norm` equal leaves are syntactically equal, and a leaf that differs after an edit of the Rust text
     fails at once instead of unfolding the field structure until the heartbeat limit) -/
 macro "kernel_eq" : tactic => `(tactic| (
-  kernel_norm
-  repeat' (first
+  -- β/ζ/projection-normalise first, INCLUDING instance arguments: otherwise the `Decidable` instances of
+  -- the conditions keep stale copies of the un-normalised terms (with `if`s inside them that `split_ifs`
+  -- would find), which makes a failing proof run to the heartbeat limit instead of failing at once
+  try dsimp +instances only
+  all_goals try kernel_norm
+  all_goals repeat' (first
     | (split_ifs <;> try kernel_norm)
     | (apply bind_congr; intro _; try kernel_norm)
     | with_reducible rfl)))
